@@ -3,11 +3,14 @@
 (* C20, definitions only: exact reference semantics of the operator and    *)
 (* state representations of pulser.backend and of the default observables. *)
 (*                                                                         *)
-(* Scalars are Gaussian integers <<re, im>>.  A context c = [d, n, ord]    *)
-(* fixes the qudit dimension, the number of qudits and the eigenstate      *)
+(* Scalars are Gaussian integers <<re, im>>.  A context c = [d, n, s, ord] *)
+(* fixes the qudit dimension, the number of qudits, s = d^n and the        *)
+(* eigenstate                                                              *)
 (* ORDER: ord is a sequence of distinct level names (integers); the level  *)
 (* ord[i] is associated with the unit vector e_(i-1) ("for eigenstates     *)
 (* (a, b, ...), a is associated to (1, 0, ...), b to (0, 1, ...)").        *)
+(* A matrix is a function on 0..s*s-1 (entry (r, k) at r*s + k): TLC keeps *)
+(* functions on integer intervals as arrays.                               *)
 (* A basis state of the register is a sequence of n level names, qudit 0   *)
 (* first; its index in the state vector is the base-d number whose most    *)
 (* significant digit is the position of qudit 0's level (tensor order).    *)
@@ -56,10 +59,13 @@ ISumR(f, lo, hi) ==
   ELSE LET mid == (lo + hi) \div 2 IN ISumR(f, lo, mid) + ISumR(f, mid + 1, hi)
 ISumTo(f, n) == ISumR(f, 0, n)
 
-Size(c) == Pow(c.d, c.n)
-Idx(c) == 0..(Size(c) - 1)
-Idx2(c) == Idx(c) \X Idx(c)
-Loc(c) == 0..(c.d - 1)
+Size(c) == c.s                                \* = d^n, carried by the context
+Idx(c) == 0..(c.s - 1)
+Idx2(c) == 0..((c.s * c.s) - 1)               \* entry (r, k) of a matrix lives at r * s + k
+Row(c, x) == x \div c.s
+Col(c, x) == x % c.s
+At(c, r, k) == (r * c.s) + k
+Loc2(c) == 0..((c.d * c.d) - 1)               \* entry (a, b) of a single-qudit matrix at a * d + b
 Digit(c, r, k) == (r \div Pow(c.d, c.n - 1 - k)) % c.d          \* qudit k of index r, k in 0..n-1
 DigTab(c) == Ev([r \in Idx(c) |-> [k \in 0..(c.n - 1) |-> Digit(c, r, k)]])
 Known(c, lvl) == \E i \in 1..c.d : c.ord[i] = lvl
@@ -68,10 +74,10 @@ IndexOf(c, bs) == ISumTo([k \in 0..(c.n - 1) |-> PosOf(c, bs[k + 1]) * Pow(c.d, 
 
 (* ---------------- operators from their representation ---------------- *)
 QMat(c, q) ==
-  Ev([ab \in Loc(c) \X Loc(c) |->
+  Ev([x \in Loc2(c) |->
      GSumSeq([m \in 1..Len(q) |->
-        IF PosOf(c, q[m][1]) = ab[1] /\ PosOf(c, q[m][2]) = ab[2] THEN q[m][3] ELSE Z0])])
-IdMat(c) == Ev([ab \in Loc(c) \X Loc(c) |-> IF ab[1] = ab[2] THEN G1 ELSE Z0])
+        IF PosOf(c, q[m][1]) = (x \div c.d) /\ PosOf(c, q[m][2]) = (x % c.d) THEN q[m][3] ELSE Z0])])
+IdMat(c) == Ev([x \in Loc2(c) |-> IF (x \div c.d) = (x % c.d) THEN G1 ELSE Z0])
 Factors(c, t) ==
   Ev([k \in 0..(c.n - 1) |->
      IF \E m \in 1..Len(t) : k \in t[m][2]
@@ -81,11 +87,11 @@ Factors(c, t) ==
 TensorMat(c, t) ==
   LET F == Factors(c, t)
       dg == DigTab(c)
-  IN Ev([rs \in Idx2(c) |->
-        GProdTo([k \in 0..(c.n - 1) |-> F[k][<<dg[rs[1]][k], dg[rs[2]][k]>>]], c.n - 1)])
+  IN Ev([x \in Idx2(c) |->
+        GProdTo([k \in 0..(c.n - 1) |-> F[k][(dg[x \div c.s][k] * c.d) + dg[x % c.s][k]]], c.n - 1)])
 OpMat(c, f) ==
   LET Ms == Ev([m \in 1..Len(f) |-> TensorMat(c, f[m][2])])
-  IN Ev([rs \in Idx2(c) |-> GSumSeq([m \in 1..Len(f) |-> GMul(f[m][1], Ms[m][rs])])])
+  IN Ev([x \in Idx2(c) |-> GSumSeq([m \in 1..Len(f) |-> GMul(f[m][1], Ms[m][x])])])
 
 (* a representation is accepted iff every index is a qudit of the system, the qudit sets of
    one TensorOp are mutually exclusive and every key is made of two eigenstates *)
@@ -101,26 +107,30 @@ KronTo(c, F, k) ==
   IF k = 0 THEN F[0]
   ELSE LET A == KronTo(c, F, k - 1)
            s == Pow(c.d, k + 1)
-       IN Ev([rs \in (0..(s - 1)) \X (0..(s - 1)) |->
-             GMul(A[<<rs[1] \div c.d, rs[2] \div c.d>>], F[k][<<rs[1] % c.d, rs[2] % c.d>>])])
+           sp == Pow(c.d, k)
+       IN Ev([x \in 0..((s * s) - 1) |->
+             LET r == x \div s  q == x % s
+             IN GMul(A[((r \div c.d) * sp) + (q \div c.d)], F[k][((r % c.d) * c.d) + (q % c.d)])])
 
 (* ---------------- matrix algebra ---------------- *)
-MatAdd(c, A, B) == Ev([rs \in Idx2(c) |-> GAdd(A[rs], B[rs])])
-MatScale(c, g, A) == Ev([rs \in Idx2(c) |-> GMul(g, A[rs])])
+MatAdd(c, A, B) == Ev([x \in Idx2(c) |-> GAdd(A[x], B[x])])
+MatScale(c, g, A) == Ev([x \in Idx2(c) |-> GMul(g, A[x])])
 MatMul(c, A, B) ==
-  Ev([rs \in Idx2(c) |-> GSumTo([k \in Idx(c) |-> GMul(A[<<rs[1], k>>], B[<<k, rs[2]>>])], Size(c) - 1)])
-Dagger(c, A) == Ev([rs \in Idx2(c) |-> GConj(A[<<rs[2], rs[1]>>])])
+  Ev([x \in Idx2(c) |->
+        LET r == (x \div c.s) * c.s  q == x % c.s
+        IN GSumTo([k \in Idx(c) |-> GMul(A[r + k], B[(k * c.s) + q])], c.s - 1)])
+Dagger(c, A) == Ev([x \in Idx2(c) |-> GConj(A[((x % c.s) * c.s) + (x \div c.s)])])
 Hermitian(c, A) == Dagger(c, A) = A
-ApplyVec(c, A, v) == Ev([r \in Idx(c) |-> GSumTo([k \in Idx(c) |-> GMul(A[<<r, k>>], v[k])], Size(c) - 1)])
-Outer(c, v) == Ev([rs \in Idx2(c) |-> GMul(v[rs[1]], GConj(v[rs[2]]))])
-Trace(c, A) == GSumTo([r \in Idx(c) |-> A[<<r, r>>]], Size(c) - 1)
+ApplyVec(c, A, v) == Ev([r \in Idx(c) |-> GSumTo([k \in Idx(c) |-> GMul(A[(r * c.s) + k], v[k])], c.s - 1)])
+Outer(c, v) == Ev([x \in Idx2(c) |-> GMul(v[x \div c.s], GConj(v[x % c.s]))])
+Trace(c, A) == GSumTo([r \in Idx(c) |-> A[(r * c.s) + r]], c.s - 1)
 TrProd(c, A, B) ==                       \* Tr[A B]
-  GSumTo([r \in Idx(c) |-> GSumTo([k \in Idx(c) |-> GMul(A[<<r, k>>], B[<<k, r>>])], Size(c) - 1)], Size(c) - 1)
+  GSumTo([r \in Idx(c) |-> GSumTo([k \in Idx(c) |-> GMul(A[(r * c.s) + k], B[(k * c.s) + r])], c.s - 1)], c.s - 1)
 Inner(c, u, v) == GSumTo([r \in Idx(c) |-> GMul(GConj(u[r]), v[r])], Size(c) - 1)
 VNorm2(c, v) == Inner(c, v, v)[1]
 VecAdd(c, u, v) == Ev([r \in Idx(c) |-> GAdd(u[r], v[r])])
 VecScale(c, g, v) == Ev([r \in Idx(c) |-> GMul(g, v[r])])
-ZeroMat(c) == Ev([rs \in Idx2(c) |-> Z0])
+ZeroMat(c) == Ev([x \in Idx2(c) |-> Z0])
 
 (* ---------------- states from their amplitudes ---------------- *)
 ValidAmps(c, amps) ==
@@ -138,17 +148,17 @@ Rho(c, st) == RhoTo(c, st.comps, Len(st.comps))
 (* occupation of level `one` on qudit i: total weight of the basis states with qudit i in `one` *)
 OccNum(c, R, one, i) ==
   LET dg == DigTab(c) p == PosOf(c, one)
-  IN ISumTo([r \in Idx(c) |-> IF dg[r][i] = p THEN R[<<r, r>>][1] ELSE 0], Size(c) - 1)
+  IN ISumTo([r \in Idx(c) |-> IF dg[r][i] = p THEN R[(r * c.s) + r][1] ELSE 0], Size(c) - 1)
 CorrNum(c, R, one, i, j) ==
   LET dg == DigTab(c) p == PosOf(c, one)
-  IN ISumTo([r \in Idx(c) |-> IF dg[r][i] = p /\ dg[r][j] = p THEN R[<<r, r>>][1] ELSE 0], Size(c) - 1)
+  IN ISumTo([r \in Idx(c) |-> IF dg[r][i] = p /\ dg[r][j] = p THEN R[(r * c.s) + r][1] ELSE 0], Size(c) - 1)
 (* measurement: qudit in `one` reads 1, anything else reads 0; bit pattern as a number, qudit 0 first *)
 BitsTab(c, one) ==
   LET dg == DigTab(c) p == PosOf(c, one)
   IN Ev([r \in Idx(c) |->
           ISumTo([k \in 0..(c.n - 1) |-> IF dg[r][k] = p THEN Pow(2, c.n - 1 - k) ELSE 0], c.n - 1)])
 BitNum(c, R, bt, b) ==                 \* bt = BitsTab(c, one)
-  ISumTo([r \in Idx(c) |-> IF bt[r] = b THEN R[<<r, r>>][1] ELSE 0], Size(c) - 1)
+  ISumTo([r \in Idx(c) |-> IF bt[r] = b THEN R[(r * c.s) + r][1] ELSE 0], Size(c) - 1)
 (* second moment of H on sum_m w_m |psi_m><psi_m| without squaring H: sum_m w_m |H psi_m|^2 *)
 RECURSIVE M2To(_, _, _, _)
 M2To(c, H, comps, m) ==
@@ -158,6 +168,6 @@ M2Num(c, H, st) == M2To(c, H, st.comps, Len(st.comps))
 (* <phi| R |phi> for an un-normalised pure phi *)
 FidNum(c, R, phi) == Inner(c, phi, ApplyVec(c, R, phi))
 
-Sparse(c, A) == {<<rs[1], rs[2], A[rs][1], A[rs][2]>> : rs \in {x \in Idx2(c) : A[x] # Z0}}
+Sparse(c, A) == {<<x \div c.s, x % c.s, A[x][1], A[x][2]>> : x \in {y \in Idx2(c) : A[y] # Z0}}
 SparseVec(c, v) == {<<r, v[r][1], v[r][2]>> : r \in {x \in Idx(c) : v[x] # Z0}}
 =============================================================================
